@@ -17,8 +17,17 @@ The local deques of cleanupDeferredTasks (run_next_tasks, then run_in_loop_tasks
 `exitPending`, `Task.owner` are ghost (history) fields: no step reads them.
 `cfg.clearOnClose` / the `throw` act follow the repaired code (patches/C01-01, C01-02); `stepFound`
 gives the behaviour of the code as found for the counterexamples.
-Not modelled: RunId wrap-around at 2^64 (theorems carry `NoWrap`), eventfd creation failure, nested runLoop,
-exitLoop() from a thread other than the loop thread (unsynchronised in the code: see plugin ASSUMPTIONS).
+Round 7 additions: kernel answers as oracle inputs (`Step.fault`: the next poll is interrupted / fails hard /
+reports the eventfd spuriously, the next eventfd write / read fails, the next eventfd() fails), the select
+engine's `break` on a hard poll error (`cfg.selectEngine`, `passBreak`), a virtual steady clock (`tick`) with the
+exit timer's deadline (`exitAt`, `timerDue`) and the timeout handed to the poll (`pollTimeout`, with the
+`static_cast<int>` of the epoll engine), `run()` (`Act.run`, `Step.submitRun`), the public `cleanup()`
+(`Step.cleanup`, under lock_: patches/C01-03), `runLoop()` from inside a callable (`Act.nestedRun`, refused while
+the loop is running: patches/C01-04), and the water line / statistics (`wlIn`, `wlNext`, `notices`, `inPeak`,
+`nextPeak`: written, never read by anything else).
+Not modelled: RunId wrap-around at 2^64 (theorems carry `NoWrap`), exitLoop() from a thread other than the loop
+thread (unsynchronised in the code: see plugin ASSUMPTIONS), `runLoop()` from a callable of a destructor /
+`cleanup()` drain (the loop is not running there: `valid` refuses the act).
 -/
 namespace Tbox.C01
 
@@ -27,8 +36,10 @@ inductive Act where
   | next (k : Nat)        -- loop->runNext(task k)
   | cancel (id : Nat)     -- loop->cancel(id)
   | exit                  -- loop->exitLoop()
-  | exitLater             -- loop->exitLoop(wait_time > 0): arms the exit timer
+  | exitLater (w : Nat)   -- loop->exitLoop(wait_time = w ms, w ≠ 0): arms the exit timer for now + w
   | throw                 -- the callable throws: the rest of its script is not executed
+  | run (k : Nat)         -- loop->run(task k): runNext or runInLoop, chosen by thread and running state
+  | nestedRun             -- loop->runLoop() from inside a callable / callback of the running loop
 deriving Repr, DecidableEq
 
 structure Task where
@@ -48,17 +59,35 @@ inductive Phase where
   | dead     -- destroyed
 deriving Repr, DecidableEq
 
+/-- what the next epoll_wait/select answers (oracle, set by `Step.fault`) -/
+inductive PollRes where
+  | ok         -- returns normally: reports the eventfd iff its counter is positive (level triggered)
+  | intr       -- -1/EINTR (a signal): nothing is reported
+  | err        -- -1 with another errno: epoll engine = like EINTR; select engine = `break`, the loop is left
+  | spurious   -- reports the eventfd although the counter is 0 (the read then fails with EAGAIN)
+deriving Repr, DecidableEq
+
+/-- kernel answers the environment may choose at any moment -/
+inductive Fault where
+  | poll (r : PollRes)    -- answer of the next poll
+  | wrFail                -- the next write() to the eventfd fails (nothing is added to the counter)
+  | rdFail                -- the next read() of the eventfd fails (EINTR/EAGAIN: the counter is not zeroed)
+  | efdFail               -- the next eventfd() fails (EMFILE): the loop runs without a wake-up descriptor
+deriving Repr, DecidableEq
+
 inductive Ev where
   | sub (id owner : Nat) (viaNext : Bool)
   | exec (id tid : Nat)
   | cancel (id : Nat) (ok : Bool)
   | start (tid : Nat)
   | destroy (tid : Nat)
+  | cleanup (tid : Nat)
 deriving Repr, DecidableEq
 
 structure Cfg where
   clearOnClose : Bool
   prog : Nat → List Act
+  selectEngine : Bool := false     -- engines/select/loop.cpp (a hard poll error leaves the loop) vs engines/epoll/loop.cpp
 
 structure State where
   inLoopQ : List Task := []        -- run_in_loop_func_queue_   (lock_)
@@ -81,26 +110,56 @@ structure State where
   cancelled : List Nat := []       -- ghost
   exitPending : List Nat := []     -- ghost: ids pending when the last drain began
   log : List Ev := []              -- ghost, newest first
+  clock : Nat := 0                 -- steady clock, ms
+  exitAt : Nat := 0                -- Timer::expired of the exit timer
+  timerDue : Bool := false         -- handleExpiredTimers of this pass finds the exit timer expired
+  poll : PollRes := .ok            -- oracle: answer of the next poll
+  wrFail : Bool := false           -- oracle: the next eventfd write fails
+  rdFail : Bool := false           -- oracle: the next eventfd read fails
+  efdFail : Bool := false          -- oracle: the next eventfd() fails
+  fdBad : Bool := false            -- run_event_fd_ == -1 although the loop runs (its read event could not be armed)
+  wrLost : Bool := false           -- ghost: a wake-up write failed since the eventfd was last read
+  broke : Bool := false            -- select engine: this pass ends with `break`
+  userCleanup : Bool := false      -- the drain was started by the public cleanup()
+  finalDrain : Bool := false       -- destructor: the drain of ~CommonLoop (after the exit timer was deleted) is under way
+  wlIn : Nat := 2 ^ 64 - 1         -- water_line_.run_in_loop_queue_size
+  wlNext : Nat := 2 ^ 64 - 1       -- water_line_.run_next_queue_size
+  notices : Nat := 0               -- ghost: number of water-line notices logged
+  inPeak : Nat := 0                -- run_in_loop_peak_num_ (statistics)
+  nextPeak : Nat := 0              -- run_next_peak_num_   (statistics)
 deriving Repr
 
 def idsOf (q : List Task) : List Nat := q.map (·.id)
 
-/-- `commitRunRequest` -/
+/-- `commitRunRequest`: the flag is set whether or not the write succeeded (it fails when the kernel says so, and
+always when eventfd() had failed: run_event_fd_ is -1) -/
 def commit (s : State) : State :=
-  if s.hasCommit then s else { s with efd := s.efd.map (· + 1), hasCommit := true }
+  if s.hasCommit then s
+  else if s.wrFail || s.fdBad then { s with hasCommit := true, wrFail := s.wrFail && s.fdBad, wrLost := true }   -- (fd -1: the oracle is not consumed)
+  else { s with efd := s.efd.map (· + 1), hasCommit := true }
+
+/-- tail of `runInLoop`: water-line notice and peak statistics -/
+def noteIn (s : State) : State :=
+  { s with notices := if s.wlIn < s.inLoopQ.length then s.notices + 1 else s.notices,
+           inPeak := if s.inPeak < s.inLoopQ.length then s.inLoopQ.length else s.inPeak }
+
+/-- tail of `runNext` -/
+def noteNext (s : State) : State :=
+  { s with notices := if s.wlNext < s.nextQ.length then s.notices + 1 else s.notices,
+           nextPeak := if s.nextPeak < s.nextQ.length then s.nextQ.length else s.nextPeak }
 
 /-- `runInLoop` (whole body under lock_) -/
 def submitInLoop (s : State) (tid : Nat) (body : List Act) : State :=
   let id := s.inAlloc + 2
   let s1 := { s with inAlloc := id, inLoopQ := s.inLoopQ ++ [{ id := id, owner := tid, body := body }],
                      log := .sub id tid false :: s.log }
-  if s1.efd.isSome then commit s1 else s1
+  noteIn (if s1.efd.isSome then commit s1 else s1)
 
 /-- `runNext` (no lock) -/
 def submitNext (s : State) (tid : Nat) (body : List Act) : State :=
   let id := s.nextAlloc + 2
-  { s with nextAlloc := id, nextQ := s.nextQ ++ [{ id := id, owner := tid, body := body }],
-           log := .sub id tid true :: s.log }
+  noteNext { s with nextAlloc := id, nextQ := s.nextQ ++ [{ id := id, owner := tid, body := body }],
+                    log := .sub id tid true :: s.log }
 
 def hasId (q : List Task) (id : Nat) : Bool := q.any (·.id == id)
 /-- `RemoveRunFuncItemById` -/
@@ -127,7 +186,7 @@ def cancel (s : State) (id : Nat) : State :=
 with the loop idle that is `runNext`: the loop itself submits a deferred task (empty script here), taking
 an odd run id. -/
 def dropExitTimer (s : State) (tid : Nat) : State :=
-  if s.exitTimer then { submitNext s tid [] with exitTimer := false } else s
+  if s.exitTimer then { submitNext s tid [] with exitTimer := false, timerDue := false } else s
 
 /-- one API call made by thread `tid` (the loop thread, or the owner while the loop is idle) -/
 def doAct (cfg : Cfg) (s : State) (tid : Nat) : Act → State
@@ -135,10 +194,15 @@ def doAct (cfg : Cfg) (s : State) (tid : Nat) : Act → State
   | .next k => submitNext s tid (cfg.prog k)
   | .cancel id => cancel s id
   | .exit => { dropExitTimer s tid with keepRunning := false }          -- wait_time == 0: stopLoop()
-  | .exitLater => { dropExitTimer s tid with exitTimer := true }        -- new one-shot timer whose callback is stopLoop()
+  -- new one-shot timer whose callback is stopLoop(): expired = now + interval (addTimer)
+  | .exitLater w => { dropExitTimer s tid with exitTimer := true, exitAt := s.clock + w }
   -- the exception is caught around the call (`CatchThrow(item.func, true)`, patches/C01-02): the rest of
   -- the callable is skipped, the batch goes on (outside a callable `cur` is already empty)
   | .throw => { s with cur := [] }
+  -- run(): `isRunningLockless() && !isInLoopThreadLockless()` (looked at under lock_) picks runInLoop, else runNext
+  | .run k => if s.efd.isSome && tid != s.loopTid then submitInLoop s tid (cfg.prog k) else submitNext s tid (cfg.prog k)
+  -- runLoop() while the loop is running returns at once (patches/C01-04); `valid` admits the act only then
+  | .nestedRun => s
 
 inductive Step where
   | submit (tid k : Nat)            -- runInLoop from any thread that is not inside a loop-thread step
@@ -157,6 +221,12 @@ inductive Step where
   | drainExec                       -- call the front of the local deques
   | drainEnd                        -- cleanupDeferredTasks returns; close the eventfd / finish destruction
   | destroy (tid : Nat)             -- destructor: cleanup()
+  | fault (f : Fault)               -- the environment fixes a kernel answer
+  | tick (d : Nat)                  -- the steady clock advances by d ms
+  | submitRun (tid k : Nat)         -- run() from a thread other than the loop thread while the loop runs
+  | passBreak                       -- select engine: hard poll error, `break` out of the loop after the timers
+  | cleanup (tid : Nat)             -- the public cleanup() while the loop is not running (takes lock_: patches/C01-03)
+  | setWL (a b : Nat)               -- water_line().run_in_loop_queue_size = a, .run_next_queue_size = b
 deriving Repr, DecidableEq
 
 def drainMore (s : State) : Bool := (!s.inLoopQ.isEmpty || !s.nextQ.isEmpty) && decide (0 < s.remain)
@@ -167,32 +237,74 @@ def valid (s : State) : Step → Bool
   | .loopStart _ _ => s.phase == .idle
   | .passBegin => s.phase == .poll
   | .cbAct _ => (s.phase == .pre || s.phase == .wake) && s.cur.isEmpty && s.tmpQ.isEmpty
-  | .timerExit => s.phase == .pre && s.exitTimer
-  | .passWake => s.phase == .pre && s.wakeSeen
-  | .passSkip => s.phase == .pre && !s.wakeSeen
+  | .timerExit => s.phase == .pre && s.timerDue
+  | .passWake => s.phase == .pre && s.wakeSeen && !s.timerDue
+  | .passSkip => s.phase == .pre && !s.wakeSeen && !s.timerDue && !s.broke
   | .execFront => (s.phase == .wake || s.phase == .next) && s.cur.isEmpty && !s.tmpQ.isEmpty
-  | .act => !s.cur.isEmpty
+  | .act => (match s.cur with | [] => false | .nestedRun :: _ => s.efd.isSome | _ => true)
   | .passNext => s.phase == .wake && s.cur.isEmpty && s.tmpQ.isEmpty
   | .passEnd => s.phase == .next && s.cur.isEmpty && s.tmpQ.isEmpty
   | .drainGen => s.phase == .drain && s.cur.isEmpty && s.dQ.isEmpty && drainMore s
   | .drainExec => s.phase == .drain && s.cur.isEmpty && !s.dQ.isEmpty
   | .drainEnd => s.phase == .drain && s.cur.isEmpty && s.dQ.isEmpty && !drainMore s
   | .destroy _ => s.phase == .idle
+  | .fault _ => s.phase != .dead
+  | .tick _ => s.phase != .dead
+  | .submitRun tid _ => s.phase != .drain && s.phase != .dead && s.phase != .idle && tid != s.loopTid
+  | .passBreak => s.phase == .pre && s.broke && !s.timerDue
+  | .cleanup _ => s.phase == .idle
+  | .setWL _ _ => s.phase != .dead
+
+def setFault (s : State) : Fault → State
+  | .poll r => { s with poll := r }
+  | .wrFail => { s with wrFail := true }
+  | .rdFail => { s with rdFail := true }
+  | .efdFail => { s with efdFail := true }
+
+/-- what the poll reports about the eventfd -/
+def pollSees (s : State) : Bool :=
+  match s.poll with
+  | .ok => (match s.efd with | some n => decide (0 < n) | none => false)
+  | .spurious => s.efd.isSome && !s.fdBad
+  | _ => false
+
+/-- `getWaitTime()`: 0 with run-next work queued, else the time to the (only) timer, else -1 = for ever -/
+def waitTime (s : State) : Int :=
+  if !s.nextQ.isEmpty then 0
+  else if s.exitTimer then (if s.exitAt ≤ s.clock then 0 else ((s.exitAt - s.clock : Nat) : Int))
+  else -1
+
+/-- `static_cast<int>` of a 64-bit value (two's complement) -/
+def toInt32 (x : Int) : Int := (x + 2147483648) % 4294967296 - 2147483648
+
+/-- the timeout (ms) handed to the poll.  epoll: `if (wait_ms > INT_MAX) wait_ms = INT_MAX;` then the cast to
+`int`; select: tv_sec/tv_usec from the 64-bit value, `nullptr` (-1 here) for "for ever". -/
+def pollTimeout (cfg : Cfg) (s : State) : Int :=
+  if cfg.selectEngine then waitTime s
+  else toInt32 (if waitTime s > 2147483647 then 2147483647 else waitTime s)
 
 def step (cfg : Cfg) (s : State) : Step → State
   | .submit tid k => submitInLoop s tid (cfg.prog k)
   | .idleAct tid a => doAct cfg s tid a
   | .loopStart tid forever =>
       -- eventfd(0), then under lock_: loop_thread_id_, run_event_fd_, sp_run_read_event_; commit if work is queued
-      let s1 := { s with efd := some 0, loopTid := tid, log := .start tid :: s.log }
+      -- (eventfd() may fail: then run_event_fd_ = -1, the read event exists but cannot be armed); resetStat()
+      let s1 := { s with efd := some 0, loopTid := tid, log := .start tid :: s.log,
+                         fdBad := s.efdFail, efdFail := false, wrLost := false, inPeak := 0, nextPeak := 0 }
       let s2 := if s1.inLoopQ.isEmpty then s1 else commit s1
       { s2 with keepRunning := forever, phase := .poll }
-  | .passBegin => { s with phase := .pre, wakeSeen := match s.efd with | some n => decide (0 < n) | none => false }
+  | .passBegin =>
+      -- the poll returns; handleExpiredTimers() reads the clock once
+      { s with phase := .pre, wakeSeen := pollSees s, poll := .ok,
+               broke := cfg.selectEngine && s.poll == .err,
+               timerDue := s.exitTimer && decide (s.exitAt ≤ s.clock) }
   | .cbAct a => doAct cfg s s.loopTid a
-  | .timerExit => { s with exitTimer := false, keepRunning := false }   -- one-shot: record freed, callback stopLoop()
+  | .timerExit => { s with exitTimer := false, timerDue := false, keepRunning := false }   -- one-shot: record freed, callback stopLoop()
   | .passWake =>
-      -- swap(run_in_loop_func_queue_, tmp_func_queue_); finishRunRequest(): read() zeroes the counter
-      { s with inLoopQ := s.tmpQ, tmpQ := s.inLoopQ, efd := s.efd.map (fun _ => 0), hasCommit := false, phase := .wake }
+      -- swap(run_in_loop_func_queue_, tmp_func_queue_); finishRunRequest(): read() zeroes the counter (unless it
+      -- fails); the flag is cleared either way
+      { s with inLoopQ := s.tmpQ, tmpQ := s.inLoopQ, efd := if s.rdFail then s.efd else s.efd.map (fun _ => 0),
+               rdFail := false, hasCommit := false, wrLost := false, phase := .wake }
   | .passSkip => { s with phase := .wake }
   | .execFront =>
       match s.tmpQ with
@@ -215,14 +327,30 @@ def step (cfg : Cfg) (s : State) : Step → State
                               log := .exec t.id s.loopTid :: s.log }
       | [] => s
   | .drainEnd =>
-      if s.destroying then { s with phase := .dead }
+      if s.destroying then
+        (if s.userCleanup then { s with phase := .idle, userCleanup := false }
+         -- the engine's destructor has drained; ~CommonLoop deletes the exit timer (an armed one posts the release of its
+         -- record as a deferred task) and drains once more (patches/C01-05), again for at most 100 generations
+         else if !s.finalDrain then { dropExitTimer s s.loopTid with remain := 100, finalDrain := true }
+         else { s with phase := .dead })
       else
         -- runThisAfterLoop: loop_thread_id_ cleared, read event deleted, eventfd closed
         { s with phase := .idle, efd := none,
-                 hasCommit := if cfg.clearOnClose then false else s.hasCommit }
+                 hasCommit := if cfg.clearOnClose then false else s.hasCommit, fdBad := false, wrLost := false }
   | .destroy tid =>
-      { s with phase := .drain, remain := 100, destroying := true, loopTid := tid,
+      { s with phase := .drain, remain := 100, destroying := true, userCleanup := false, finalDrain := false, loopTid := tid,
                exitPending := idsOf s.nextQ ++ idsOf s.inLoopQ, log := .destroy tid :: s.log }
+  | .fault f => setFault s f
+  | .tick d => { s with clock := s.clock + d }
+  | .submitRun tid k => doAct cfg s tid (.run k)
+  | .passBreak =>
+      { s with phase := .drain, remain := 100, destroying := false, broke := false,
+               exitPending := idsOf s.nextQ ++ idsOf s.inLoopQ }
+  | .cleanup tid =>
+      -- cleanupDeferredTasks() with no eventfd and the loop staying alive (`destroying` = "no eventfd to close")
+      { s with phase := .drain, remain := 100, destroying := true, userCleanup := true, loopTid := tid,
+               exitPending := idsOf s.nextQ ++ idsOf s.inLoopQ, log := .cleanup tid :: s.log }
+  | .setWL a b => { s with wlIn := a, wlNext := b }
 
 /-- run a step list; `none` as soon as a step is not enabled in the current state -/
 def exec (cfg : Cfg) (s : State) : List Step → Option State
@@ -240,6 +368,10 @@ def stepFound (cfg : Cfg) (s : State) : Step → State
       | .throw :: _ => if s.phase == .drain then { s with cur := [], dQ := [], phase := if s.destroying then .dead else .idle }
                        else { s with cur := [] }
       | _ => step cfg s .act
+  -- the code before patches/C01-05: ~CommonLoop deletes the exit timer after the only drain; the release of an armed
+  -- timer's record is posted to a loop that will never run it
+  | .drainEnd =>
+      if s.destroying && !s.userCleanup then { dropExitTimer s s.loopTid with phase := .dead } else step cfg s .drainEnd
   | st => step cfg s st
 
 def execFound (cfg : Cfg) (s : State) : List Step → Option State
@@ -248,6 +380,8 @@ def execFound (cfg : Cfg) (s : State) : List Step → Option State
 
 /-- the code as repaired (the tree the check passes on) -/
 def fixedCfg (prog : Nat → List Act) : Cfg := { clearOnClose := true, prog := prog }
+/-- … on the select engine -/
+def fixedCfgSel (prog : Nat → List Act) : Cfg := { clearOnClose := true, prog := prog, selectEngine := true }
 /-- the code as found -/
 def foundCfg (prog : Nat → List Act) : Cfg := { clearOnClose := false, prog := prog }
 
